@@ -55,6 +55,7 @@ func runOne(c *hxlib.Ctx, in *txexec.BlockIn, kindPrefix string) *txexec.BlockOb
 
 func gen(c *hxlib.Ctx) {
 	r := c.Rand
+	txexec.RealHangBudget = 0 // frames that really hang (each blocks for txexec.TxTimeout)
 	var canaryIn *txexec.BlockIn
 	var canaryObs *txexec.BlockObs
 	// single transactions: exact boundaries of the balance pre-check and the step limit
